@@ -369,9 +369,13 @@ static const ref_proto_t h15_pr = {H_PR_NRES, H_PR_RES, H_PR_NARGS,
 #endif
                                    H_PR_VARARG};
 
-/* ---- known findings (each confirmed natively against the real library; see known-findings.txt and the report).
-   The per-opcode obligations EXCLUDE exactly these instruction forms (so that the rest of the opcode's space is still
-   decided); the obligations "finding.*" (-DH_KF_ONLY=id) contain nothing but them and are expected to be violated. ---- */
+/* ---- instruction forms that were (or are) findings, each confirmed natively against the real library.
+   Forms that are STILL defects of /repo (without -DH_FIXED_IN_REPO: all of them; with it: only the va_list form, the
+   others were repaired by fix: commits d9fc5f08, 15c0ce9b, 789ebb63, ea7651df) are EXCLUDED from the per-opcode
+   obligations, so that the rest of the opcode's space is still decided, and are the sole content of an obligation
+   "finding.*" (-DH_KF_ONLY=id) that is expected to be violated.  Repaired forms are NOT excluded any more (the
+   per-opcode obligations cover them) and additionally are the sole content of a regression obligation "regress.*"
+   (same -DH_KF_ONLY=id) that must hold. ---- */
 enum { H_KF_NONE, H_KF_LADDR_OUT, H_KF_VA_LIST_UNDEF, H_KF_CALLEE_PROTO, H_KF_CALLEE_BLK, H_KF_ADDR_NONREG, H_KF_JCALL_UNCHECKED };
 static int h15_known_finding (size_t n, const ref_op_t *ds, unsigned expect) {
   int code = H_OPCODE;
@@ -414,6 +418,8 @@ static void h15_run (MIR_context_t ctx, size_t n, int vararg) {
   h15_expect = ref_expect (H_OPCODE, n, ds, &fn, &h15_pr, prev);
 #ifdef H_KF_ONLY
   H_ASSUME (h15_known_finding (n, ds, h15_expect) == H_KF_ONLY);
+#elif defined(H_FIXED_IN_REPO)
+  H_ASSUME (h15_known_finding (n, ds, h15_expect) != H_KF_VA_LIST_UNDEF);
 #else
   H_ASSUME (h15_known_finding (n, ds, h15_expect) == H_KF_NONE);
 #endif
